@@ -773,7 +773,7 @@ def monitor_exact(case, real, strict_exact=False):
         bad.append(("run without stop request reaches the final time", real["stop_reason"], "Reached final time"))
     elif t1 >= t0 and abs(real["t_final"] - t1) > rt and not (t1 - t0 <= EPS * dt):
         # an exact stepper ends at t_end itself (or, after a last target within 1e-6*dt of it, just before)
-        if not (t1 - EPS * dt <= real["t_final"] <= t1):
+        if not (t1 - EPS * dt_eff - rt <= real["t_final"] <= t1 + rt):
             bad.append(("exact stepper ends at t_end", real["t_final"], t1))
     return bad
 
